@@ -22,7 +22,7 @@ ALLOWED = {
     "netloc": {"ENC:netloc", "ENC:userinfo", "ENC:host"},
     "scheme": None,        # scheme (and host) positions are governed by C16 / outside the five claimed components
 }
-ANALYSED_MODULES = ("_url", "_query")
+ANALYSED_MODULES = ("_url", "_query", "_parse")
 
 
 def make_kinds(model: Model) -> Kinds:
@@ -44,6 +44,15 @@ def funcs(model):
     return [fi for fi in model.all_funcs() if fi.module in ANALYSED_MODULES]
 
 
+def contexts(K, model, only=None):
+    """(FuncInfo, bindings, param kinds, Result) for every analysed function in every calling context."""
+    for fi in funcs(model):
+        if only and fi.qual not in only:
+            continue
+        for bind, pk in K.contexts(fi):
+            yield fi, bind, (pk or None), analyze(model, fi, bind or None)
+
+
 def _bad(kinds, allowed):
     return sorted(x for x in kinds if x not in NEUTRAL and x != OPQ and (allowed is not None and x not in allowed))
 
@@ -53,10 +62,7 @@ def k1(ctx: Ctx, K: Kinds, only=None):
     model = ctx.model
     rule = "K1"
     ctx.rule(rule, floor=15 if not only else 3, what="every constructor sink receives encoded text of that component's role (never decoded / raw URL text)")
-    for fi in funcs(model):
-        if only and fi.qual not in only:
-            continue
-        r = analyze(model, fi)
+    for fi, bind, pk, r in contexts(K, model, only):
         ctx.functions.add(fi.qual)
         sites = {}
         for e in r.by_kind("call"):
@@ -65,12 +71,12 @@ def k1(ctx: Ctx, K: Kinds, only=None):
                 for pos, a in zip(SINKS[name], e.args):
                     if ALLOWED[pos] is None or a[0] == "star":
                         continue
-                    kd = K.kind(a, e.state.facts, fi, None, r)
+                    kd = K.kind(a, e.state.facts, fi, pk, r)
                     bad = _bad(kd, ALLOWED[pos])
                     sites.setdefault((id(e.node), pos), [e.node, f"{name}(.. {pos}={show(a)[:70]} ..)", pos, []])[3].append((bad, sorted(kd)))
             elif name == "build_pre_encoded_url":
                 for a in e.args:
-                    kd = K.kind(a, e.state.facts, fi, None, r)
+                    kd = K.kind(a, e.state.facts, fi, pk, r)
                     bad = sorted(x for x in kd if x in (DEC, RAW, UNK))
                     sites.setdefault((id(e.node), show(a)), [e.node, f"{name}(.. {show(a)[:40]} ..)", "pre-encoded", []])[3].append((bad, sorted(kd)))
         for e in r.by_kind("store_attr"):
@@ -78,7 +84,7 @@ def k1(ctx: Ctx, K: Kinds, only=None):
                 break       # the sink itself: its arguments are checked at every call site
             if e.obj[0] == "new" and e.attr in SLOT_POS and ALLOWED[SLOT_POS[e.attr]] is not None:
                 pos = SLOT_POS[e.attr]
-                kd = K.kind(e.value, e.state.facts, fi, None, r)
+                kd = K.kind(e.value, e.state.facts, fi, pk, r)
                 bad = _bad(kd, ALLOWED[pos])
                 sites.setdefault((id(e.node), pos), [e.node, f"<new URL>.{e.attr} = {show(e.value)[:70]}", pos, []])[3].append((bad, sorted(kd)))
         for node, cons, pos, results in sites.values():
@@ -95,8 +101,7 @@ def k2_k3(ctx: Ctx, K: Kinds):
     r2, r3 = "K2", "K3"
     ctx.rule(r2, floor=15, what="decoded text meets only non-requoting quoters (once), URL text only requoters")
     ctx.rule(r3, floor=8, what="unquoters read encoded text")
-    for fi in funcs(model):
-        r = analyze(model, fi)
+    for fi, bind, pk, r in contexts(K, model):
         sites = {}
         for e in r.by_kind("call"):
             q = K.quoter_of(e.func)
@@ -104,7 +109,7 @@ def k2_k3(ctx: Ctx, K: Kinds):
                 continue
             name, info = q
             a = e.args[0]
-            kd = K.kind(a, e.state.facts, fi, None, r)
+            kd = K.kind(a, e.state.facts, fi, pk, r)
             if info[0] == "unquoter":
                 bad = sorted(x for x in kd if x in (DEC, UNK))
                 msg = f"{name} is applied to text of kind {bad}: decoded text would be decoded twice ('%2541' -> '%41' -> 'A')"
